@@ -8,6 +8,14 @@ from .. import apilevel as A, docx_builder as B, gen_xml, oracle_html as O
 from .c16 import BUILTIN
 
 
+IMG_HEADER = """From Mammoth Require Import LiveSpec LiveImgSpec.
+Definition src_of (c : list (str * dpart) * bool * list (str * img_src) * api_opts * option (str * list str) * option (str * list str)) : source :=
+  let '(parts, named, linked, a, _, _) := c in mkSource (package_of parts) named linked.
+Definition chk_imgs c := live_imgs_agree (src_of c).
+Definition chk_imgs_domain c := live_imgs_domain (src_of c).
+"""
+
+
 def expected_images(pkg, linked=None):
     """(content type, bytes or None when unreadable, alt) of every image, in document order — from the package alone"""
     rels = {i: t for i, t, ty in pkg.rels}
@@ -190,9 +198,14 @@ def run(ctx):
                     ctx.sample({"images": [(ct, None if b_ is None else len(b_), alt) for ct, b_, alt in exp], "converter": conv})
             terms.append(A.case_term(parts, named, linked, opts, html, raw))
             metas.append(meta)
-    for i in ctx.coq_eval("c17", A.HEADER, terms, A.CASE_TYPE, "chk_api", shard=10)[:5]:
+    for i in ctx.coq_eval("c17", A.HEADER + IMG_HEADER, terms, A.CASE_TYPE, "chk_api", shard=10, more=("chk_imgs", "chk_imgs_domain"))[:5]:
         ctx.violation("correspondence", "model and implementation disagree",
                       dict(metas[i], obligation="correspondence Model/Api.v vs mammoth.convert_to_html"), False)
+    # the reader-half theorem's statement, evaluated: images of what the model reader returns = the Coq live-image specification
+    for i in ctx.more_bad["chk_imgs"][:5]:
+        ctx.violation("proof", "the images the reader returns are not the live images of the body in document order (Proofs/LiveImgSpec.v: live_imgs_agree is false)",
+                      dict(metas[i], obligation="Props/C17.v: C17_reader_images evaluated on this package"), False)
+    dist["in_reader_theorem_domain_with_images"] = len(terms) - len(ctx.more_bad["chk_imgs_domain"])
     ctx.coverage["traces_validated_against_impl"] = len(terms)
     ctx.coverage["input_distribution"] = dist
     ctx.coverage["rule"] = ("packages with several inline / anchored / VML images, embedded and linked, content types declared by override, extension default or neither, "
